@@ -577,6 +577,18 @@ def _run_compile(env, ctx, op, path):
         task.deadline = task.local + int(op.get('budget', 4 * REF_BUDGET))
     nm = op.get('name')
     before = sys.modules.get(nm) if nm else None
+    if op.get('extends') is not None and (parent is None or not parent.ok):
+        # The planned parent was not built in this run (its construction sat in a callback that was never reached, or
+        # failed).  If its NAME is currently bound to another module of the run - an older generation - `extends`
+        # would silently bind to that one and the plan's idea of this module's chain would be wrong: not executed.
+        # (A name bound to a module that no handle knows - a parent still under construction - is the race that is
+        # wanted; an unbound name makes the construction fail by itself.)
+        pname = _extends_name(op['desc'])
+        cur = sys.modules.get(pname) if pname else None
+        if cur is not None and any(h.ok and h.module is cur for h in env.handles.values()):
+            env.count('construction_skipped:planned_parent_not_built')
+            env.handles[op['mod']] = Handle(op['mod'], None, (op['desc'],), op.get('name'))
+            return {'path': list(path), 'out': {'skipped': 'planned-parent-not-built'}, 'fired': [], 'nested': [], 'steps': 0}
     # user code runs during a construction as well (Python sections are executed by Grammar()):
     # the construction is a call scope of the user-code seam like a parse
     fr = Frame(op.get('script'), path, 'compile')
@@ -794,6 +806,18 @@ def pristine_sources(chain):
 _SRC_CACHE = {}       # chain -> list of pristine generated sources (for the construction-divergence lead)
 _CODE_CACHE = {}      # chain (tuple of descs) -> list of (name, code, doc) or ('fail', exc info)
 _CODE_CACHE_MAX = 64
+
+
+def _extends_name(desc):
+    for line in desc.split('\n'):
+        t = line.strip()
+        if not t or t.startswith('#'):
+            continue
+        w = t.split()
+        if w[0] == 'grammar' and 'extends' in w:
+            return w[w.index('extends') + 1]
+        return None
+    return None
 
 
 def _named(desc):
